@@ -97,6 +97,8 @@ pub fn encode(lat: f64, lon: f64, odd: bool, surface: bool) -> (u32, u32, bool) 
 pub struct Step {
     pub dt: f64,
     pub odd: bool,
+    /// the previous report delivered once more, `dt` later (another receiver, a relay): same frame, later stamp
+    pub dup: bool,
 }
 
 pub struct Templates {
@@ -176,6 +178,12 @@ pub fn build(tr: &Traj, tp: &Templates, steps: &[Step]) -> Option<Vec<Report1>> 
     let mut v = Vec::with_capacity(steps.len());
     for (k, s) in steps.iter().enumerate() {
         t += s.dt;
+        if s.dup && k > 0 {
+            let prev: &Report1 = &v[k - 1];
+            let again = Report1 { t, truth: prev.truth, judge: prev.judge, surface: prev.surface, msg: prev.msg.clone() };
+            v.push(again);
+            continue;
+        }
         let (lat, lon) = tr.at(t - 1000.0);
         let surface = tr.surface_at(k);
         if surface {
@@ -205,7 +213,7 @@ pub fn run_decoder(reports: &[&Report1], reference: Option<Position>) -> Result<
 }
 
 fn steps_json(steps: &[Step]) -> Value {
-    json!(steps.iter().map(|s| json!([s.dt, if s.odd { "odd" } else { "even" }])).collect::<Vec<_>>())
+    json!(steps.iter().map(|s| json!([s.dt, if s.dup { "again" } else if s.odd { "odd" } else { "even" }])).collect::<Vec<_>>())
 }
 
 fn traj_json(tr: &Traj) -> Value {
@@ -357,9 +365,12 @@ fn explore_traj(tr: &Traj, prefix: &[Step], min_len: usize, depth: usize, thorou
     let mut syms: Vec<Step> = Vec::new();
     for dt in &gs {
         for odd in [false, true] {
-            syms.push(Step { dt: *dt, odd });
+            syms.push(Step { dt: *dt, odd, dup: false });
         }
     }
+    // the previous report once more, 0.1 s and 0.4 s later
+    syms.push(Step { dt: 0.1, odd: false, dup: true });
+    syms.push(Step { dt: 0.4, odd: false, dup: true });
     let k = syms.len();
     // alias gaps only as far as depth-1 (they multiply the alphabet)
     let mut idx = vec![0usize; depth];
@@ -463,9 +474,9 @@ pub fn run(ctx: &Ctx, rep: &Report) {
     // non-initial states: the exploration is restarted after three five-report prefixes that set the per-aircraft
     // state up (an established track of alternating reports; a fix followed by duplicates; five reports from one spot)
     {
-        let e = |dt: f64| Step { dt, odd: false };
-        let o = |dt: f64| Step { dt, odd: true };
-        let prefixes: Vec<Vec<Step>> = vec![vec![e(0.0), o(0.4), e(0.4), o(0.4), e(0.4)], vec![e(0.0), o(0.5), o(0.0), o(0.0), o(0.0)], vec![e(0.0), o(0.0), e(0.0), o(0.0), e(0.0)]];
+        let e = |dt: f64| Step { dt, odd: false, dup: false };
+        let o = |dt: f64| Step { dt, odd: true, dup: false };
+        let prefixes: Vec<Vec<Step>> = vec![vec![e(0.0), o(0.4), e(0.4), o(0.4), e(0.4)], vec![e(0.0), o(0.5), Step { dt: 0.1, odd: true, dup: true }, Step { dt: 0.1, odd: true, dup: true }, Step { dt: 0.1, odd: true, dup: true }], vec![e(0.0), o(0.0), e(0.0), o(0.0), e(0.0)]];
         let sd = if thorough { 3 } else { 2 };
         par_items(ctx.threads, cat.len() * prefixes.len(), |i| {
             explore_traj(&cat[i / prefixes.len()], &prefixes[i % prefixes.len()], 1, sd, thorough, thorough, 0, rep, &total, &steps_total, &hist, &pruned);
@@ -478,7 +489,7 @@ pub fn run(ctx: &Ctx, rep: &Report) {
         let mut psyms: Vec<Step> = Vec::new();
         for g in pgaps {
             for odd in [false, true] {
-                psyms.push(Step { dt: g, odd });
+                psyms.push(Step { dt: g, odd, dup: false });
             }
         }
         let mut pats: Vec<Vec<Step>> = Vec::new();
@@ -539,7 +550,7 @@ pub fn run(ctx: &Ctx, rep: &Report) {
                 for b in 0..2 {
                     for g2 in small_gaps {
                         for c in 0..2 {
-                            v.push(vec![Step { dt: 0.0, odd: a == 1 }, Step { dt: g1, odd: b == 1 }, Step { dt: g2, odd: c == 1 }]);
+                            v.push(vec![Step { dt: 0.0, odd: a == 1, dup: false }, Step { dt: g1, odd: b == 1, dup: false }, Step { dt: g2, odd: c == 1, dup: false }]);
                         }
                     }
                 }
@@ -569,7 +580,7 @@ pub fn run(ctx: &Ctx, rep: &Report) {
             // bystanders: 0, 2 or 7 other aircraft heard (and fixed) before, only in the interleaved run
             let crowd_n = [0usize, 2, 7][(si + pi) % 3];
             let crowd: Vec<Report1> = (0..crowd_n)
-                .flat_map(|c| build(tb, &templates(0x500000 + c as u32), &[Step { dt: 0.0, odd: false }, Step { dt: 0.4, odd: true }]).unwrap_or_default())
+                .flat_map(|c| build(tb, &templates(0x500000 + c as u32), &[Step { dt: 0.0, odd: false, dup: false }, Step { dt: 0.4, odd: true, dup: false }]).unwrap_or_default())
                 .collect();
             for m in &merges {
                 let mut order: Vec<&Report1> = Vec::with_capacity(6 + crowd.len());
@@ -617,7 +628,7 @@ pub fn run(ctx: &Ctx, rep: &Report) {
         }
     }
     let t = total.load(Ordering::Relaxed) + pair_total.load(Ordering::Relaxed);
-    rep.sample(json!({"trajectory": traj_json(&cat[0]), "steps": steps_json(&[Step { dt: 0.0, odd: false }, Step { dt: 0.4, odd: true }, Step { dt: 9.9, odd: false }])}));
+    rep.sample(json!({"trajectory": traj_json(&cat[0]), "steps": steps_json(&[Step { dt: 0.0, odd: false, dup: false }, Step { dt: 0.4, odd: true, dup: false }, Step { dt: 9.9, odd: false, dup: false }])}));
     rep.sample(json!({"trajectory": traj_json(cat.iter().find(|t| matches!(t.phase, Phase::Landing(_))).unwrap_or(&cat[0]))}));
     rep.eval(t);
     rep.trans(steps_total.load(Ordering::Relaxed) + 6 * pair_total.load(Ordering::Relaxed));
@@ -630,7 +641,7 @@ pub fn run(ctx: &Ctx, rep: &Report) {
 }
 
 pub fn replay(w: &Value, rep: &Report) {
-    let parse_steps = |v: &Value| -> Vec<Step> { v.as_array().map(|a| a.iter().map(|s| Step { dt: s[0].as_f64().unwrap_or(0.0), odd: s[1].as_str() == Some("odd") }).collect()).unwrap_or_default() };
+    let parse_steps = |v: &Value| -> Vec<Step> { v.as_array().map(|a| a.iter().map(|s| Step { dt: s[0].as_f64().unwrap_or(0.0), odd: s[1].as_str() == Some("odd"), dup: s[1].as_str() == Some("again") }).collect()).unwrap_or_default() };
     if w.get("trajectory").is_some() {
         let tr = traj_from_json(&w["trajectory"]);
         let steps = parse_steps(&w["steps"]);
